@@ -32,6 +32,13 @@ def check(pid, tier):
                  for i, p in enumerate(P) for j, c in enumerate(C)]
     cases += [{"po": rng.choice(P), "ci": rng.choice(C), "c2": rng.choice(C), "via": "direct", "two": True}
               for _ in range(6000 if tier == "quick" else 100000)]
+    # a units-rewriting adapter (SumOverTime, per_time) on the link
+    for po in P:
+        if po["units"] in ("m", "km", "s") and po["mask"] in ("flex", "nomask") and po["foo"] == "absent":
+            for cu in ("none", "m", "s", "ms", "kms"):
+                cases.append({"po": po, "ci": {"time": "t", "grid": po["grid"] if po["grid"] != "none" else "g",
+                                                 "units": cu, "mask": "flex", "foo": "absent"},
+                              "c2": C[0], "via": "sumtime", "two": False})
     traces = run_cases(*RUNNER, cases)
     herr = [t for t in traces if "harness_error" in t]
     if herr:
